@@ -945,6 +945,9 @@ def _elem_origin(zf, op, depth=0):
     if idx:
         it = zf.term_op({'k': 'copy', 'pl': {'l': idx[0]['l']}})
         via_list = it is not None and it[0] is not None and it[0] in zf.elem_of
+        if not via_list and it is not None and it[0] and body.kind == 'Closure':
+            # the index is the closure's item (or a component of it): an element of the iterated index list
+            via_list = zf.closure_elem_sym(it[0]) is not None
         return ('idx', zf.desc_local(l), it, via_list)
     cidx = [p for p in ps if p['k'] == 'cindex']
     if cidx:
@@ -1183,8 +1186,10 @@ def rule_generator_pairing(ctx, cfg='prod-all', fns=None):
                 elif r['kind'] == 'message':
                     n_msg += 1
                     ok_off = start == (None, 1) and r['mstart'] == (None, 0)
-                    if r['gpos'] is not None and r['mpos'] is not None:
-                        ok_pos = r['gpos'] == r['mpos'] or bool(r['indexed_by_list'])
+                    if r['indexed_by_list']:
+                        ok_pos = True          # H[i_k] * m_k with i_k the k-th element of an index list: positions are the business of the index-list rules
+                    elif r['gpos'] is not None and r['mpos'] is not None:
+                        ok_pos = r['gpos'] == r['mpos']
                     else:
                         ok_pos = r['same_iteration'] is True
                     yield Ob('RF-M', key + ':H-offset', ok_off, 'the generators multiplied with messages are taken from generators.values[1..] (H_i = values[i + 1])', r['where'],
